@@ -177,6 +177,22 @@ for (const s of job.structs) {
         st.next = save;
         probe.push(rec);
     }
+    // a nested allocation that grows the wasm memory (as an allocation inside Rust may): every view created before it is detached
+    for (const enc of ["string8", "string16"]) {
+        const rec = { ty: "strs-grow:" + enc, n: 3, elem: 8 };
+        const realAlloc = wasm.diplomat_alloc;
+        try {
+            st.allocs.length = 0;
+            let k = 0;
+            wasm.diplomat_alloc = (size, align) => { k += 1; if (k === 2) wasm.memory.grow(1); return realAlloc(size, align); };
+            const b = rt.DiplomatBuf.strs(wasm, ["ab", "cde", "f"], enc);
+            rec.ptr = b.ptr; rec.len = b.size; rec.alloc = { size: st.allocs[0].size, align: st.allocs[0].align, ptr: st.allocs[0].ptr };
+            rec.pairs = Array.from(new Uint32Array(wasm.memory.buffer, b.ptr, 6));
+            rec.want_pairs = [st.allocs[1].ptr, 2, st.allocs[2].ptr, 3, st.allocs[3].ptr, 1];
+        } catch (e) { rec.error = String(e).slice(0, 200); }
+        wasm.diplomat_alloc = realAlloc;
+        probe.push(rec);
+    }
     results.push({ name: "$runtime_probe", probe });
 }
 process.stdout.write(JSON.stringify(results));
